@@ -36,7 +36,7 @@ type cmdCase struct {
 
 var faultKinds = []string{"dangling-ref", "wrong-kind-ref", "empty-role-value", "no-name", "name-without-surname", "self-parent", "self-spouse",
 	"duplicate-pointer", "person-family-same-pointer", "empty-family", "source-without-title", "odd-dates", "odd-surname", "cyclic-parents",
-	"dangling-fams-famc", "duplicate-child", "empty-name", "person-sour-ref", "no-people", "nested-oddities"}
+	"dangling-fams-famc", "duplicate-child", "empty-name", "person-sour-ref", "no-people", "nested-oddities", "name-like-place", "odd-identifiers"}
 
 var oddDates = []string{"", "(phrase)", "Bet. 1950 and 1900", "0", "99999", "31 Feb 1900", "Abt.", "Bef. garbage", "1 Jan 0001", "31 Dec 9999", "from to", "Bet. and", "3 Sep 1943 ", "١٩٤٣", "-5", "1e9", "32 13 1900"}
 var oddNames = []string{"/9lives/", "/Écrivain/", "/#hash/", "/ /", "//", "/'quoted'/", "/李/", "John", "/", "John //", "   ", "/-/", "John /Smith/ /Jones/", "\"", "/&amp;/", "/ÿ/", "/\xff\xfe/", "/.../", "/0/"}
@@ -132,6 +132,18 @@ func applyFault(rt *rapid.T, g *gen.GraphBP, kind string) {
 	case "duplicate-child":
 		f, p := fam("f"), person("p")
 		f.Children = append(f.Children, p.ID, p.ID)
+	case "name-like-place":
+		// a person whose whole name reads like a place of the file (the page keys of people and
+		// places share one namespace), or people and places written without any Latin letter
+		pair := rapid.SampledFrom([][2]string{{"Paris", "Paris"}, {"/Paris/", "Paris"}, {"李 /王/", "北京"}, {"/-/", "!!!"}, {"John /Smith/", "John Smith"},
+			{"Places", "places"}, {"Иван /Иванов/", "Москва"}, {"Sydney /Australia/", "Sydney, Australia"}, {"//", "(none)"}, {"", ""}}).Draw(rt, "pair")
+		p := person("p")
+		p.Names = []gen.Str{gen.Str(pair[0])}
+		q := person("q")
+		q.Events = append(q.Events, gen.EventBP{Tag: rapid.SampledFrom([]string{"BIRT", "DEAT", "RESI"}).Draw(rt, "ptag"), Place: gen.Str(pair[1]), Date: "1850", HasDate: true})
+	case "odd-identifiers":
+		// source and record pointers that are not plain identifiers
+		g.Sources = append(g.Sources, &gen.SourceBP{ID: rapid.SampledFrom([]string{"../x", "a/b", "places", "S 1", "x.html", "%2e", "-", "Zoë"}).Draw(rt, "sid"), Title: "odd pointer"})
 	case "no-people":
 		g.People = nil
 	case "nested-oddities":
@@ -315,7 +327,7 @@ func TestCheckCLI(t *testing.T) {
 	e := env{cli, dir}
 	cmds := allCommands()
 	s := harness.NewSub("cli-on-faulted-files",
-		fmt.Sprintf("random family graphs (wild dates, identifiers, sources) perturbed by 0..3 (thorough 0..5) structural faults from %d kinds (dangling / wrong-kind / empty HUSB-WIFE-CHIL, no or empty NAME, odd surnames incl. digits, symbols, multi-byte and invalid UTF-8, self-parent, self-spouse, cyclic parents, duplicate pointers, person and family sharing a pointer, empty family, source without title, odd dates, dangling FAMS/FAMC, duplicate child, no people, empty sub-records); every file the decoder accepts is given to the built gedcom binary with a rotating third of %d command lines (warnings; publish x 3 visibilities x page-group switches x jobs; diff x show x sort; query x 20 documented-style queries x 5 formats; two-document queries); oracle: exit 0, or exit 1 with an ERROR: line; no panic / fatal error / goroutine dump; no hang; every distinct crash signature of a run is kept; non-trivial = at least one fault and two people", len(faultKinds), len(cmds)))
+		fmt.Sprintf("random family graphs (wild dates, identifiers, sources) perturbed by 0..3 (thorough 0..5) structural faults from %d kinds (dangling / wrong-kind / empty HUSB-WIFE-CHIL, no or empty NAME, odd surnames incl. digits, symbols, multi-byte and invalid UTF-8, self-parent, self-spouse, cyclic parents, duplicate pointers, person and family sharing a pointer, empty family, source without title, odd dates, dangling FAMS/FAMC, duplicate child, no people, empty sub-records, a person named like a place of the file or people and places without any Latin letter, source pointers that are not plain identifiers); every file the decoder accepts is given to the built gedcom binary with a rotating third of %d command lines (warnings; publish x 3 visibilities x page-group switches x jobs; diff x show x sort; query x 20 documented-style queries x 5 formats; two-document queries); oracle: exit 0, or exit 1 with an ERROR: line; no panic / fatal error / goroutine dump; no hang; every distinct crash signature of a run is kept; non-trivial = at least one fault and two people", len(faultKinds), len(cmds)))
 	s.Rapid(t, harness.Share(harness.Pick(2000, 50000)), 140, func(rt *rapid.T) {
 		g, faults := genDoc(rt)
 		offset := rapid.IntRange(0, 2).Draw(rt, "cmdOffset")
